@@ -232,7 +232,7 @@ def gen_e_cases(rng, n):
     for a in pats:
         for b in pats:
             cases.append((a, b))
-    for i in range(0, 128, 9):           # single-bit keys and blocks
+    for i in range(0, 128, 17):          # single-bit keys and blocks
         v = (1 << i).to_bytes(16, 'big')
         cases.append((v, bytes(16)))
         cases.append((bytes(16), v))
@@ -350,7 +350,7 @@ def run_cmac(ctx, mods, batch):
         cases.append((key, m.data, m.coq()))
     for n, _ in RFC4493:
         cases.append((RFC4493_KEY, RFC4493_MSG[:n], coq_bytes(RFC4493_MSG[:n])))
-    for _ in range(ctx.n(40, 400)):
+    for _ in range(ctx.n(15, 400)):
         m = rng.bytes(rng.choice([0, 1, 15, 16, 17, 31, 32, 33, 47, 48, 49, 63, 64, 65, rng.range(0, 300)]))
         cases.append((rng.bytes(16), m, coq_bytes(m)))
     if not ctx.quick():     # a few long literal (fully random) messages
@@ -377,7 +377,7 @@ def run_cmac(ctx, mods, batch):
     batch.defer([f'aes_cmac_builtin {mc} {coq_bytes(k)}' for k, _, mc in cases], fin_main)
 
     # the RFC formulation evaluated directly as well on a sample (the equality is a theorem)
-    rfc_idx = [i for i in range(len(cases)) if i % 7 == 0 and len(cases[i][1]) <= 400]
+    rfc_idx = [i for i in range(len(cases)) if i % ctx.n(12, 5) == 0 and len(cases[i][1]) <= 400]
 
     def fin_rfc(rfc):
         for i, mv in zip(rfc_idx, rfc):
@@ -400,7 +400,7 @@ def run_cmac(ctx, mods, batch):
 
     # chunked updates on the real _CMAC object
     chunked = []
-    for _ in range(ctx.n(60, 600)):
+    for _ in range(ctx.n(30, 600)):
         msg = rng.bytes(rng.choice([0, 1, 15, 16, 17, 32, 33, 48, 64, 80, rng.range(0, 200)]))
         chunked.append((rng.bytes(16), split_chunks(rng, msg)))
 
@@ -474,7 +474,7 @@ def run_toolbox(ctx, mods, batch):
     rng = ctx.rng
     cases = [(fn, args) for fn, args, _ in CORE_SAMPLES]
     for fn in TOOLBOX:
-        for _ in range(ctx.n(20, 250)):
+        for _ in range(ctx.n(12, 250)):
             cases.append((fn, gen_toolbox_case(rng, fn)))
     n_prop = len(cases)
     # malformed arguments (Python raises): model correspondence only
@@ -629,7 +629,7 @@ def run_ec_steps(ctx, mods, batch):
 
     doubles, adds, affs, muls = [], [], [], []
     inf = (1, 1, 0)
-    for _ in range(ctx.n(25, 300)):
+    for _ in range(ctx.n(12, 300)):
         a = rand_jac(rng.chance(3, 4))
         b = rand_jac(rng.chance(3, 4))
         doubles.append(a)
@@ -641,9 +641,9 @@ def run_ec_steps(ctx, mods, batch):
     adds += [(inf, inf), (inf, (GX, GY, 1)), ((GX, GY, 1), inf), ((GX, GY, 1), (GX, GY, 1)), ((GX, GY, 1), (GX, P - GY, 1)),
              ((GX, 0, 1), (GX, 0, 1)), ((GX + P, GY, 1), (GX, GY, 1))]
     affs += [inf, (GX, GY, 1), (GX, GY, P), (GX, GY, 2 * P), (5, 6, 7)]
-    base = [(GX, GY, 1), rand_jac(True), rand_jac(True)]
+    base = [(GX, GY, 1), rand_jac(True)] + ([rand_jac(True)] if not ctx.quick() else [])
     for pt in base:
-        for k in list(range(0, 13)) + [rng.range(13, ctx.n(255, 4095)) for _ in range(ctx.n(2, 10))] + [-1]:
+        for k in list(range(0, ctx.n(9, 13))) + [rng.range(13, ctx.n(255, 4095)) for _ in range(ctx.n(1, 10))] + [-1]:
             muls.append((pt, k))
 
     def jp(t):
@@ -768,7 +768,7 @@ def run_ec(ctx, mods, batch):
                 ctx.violation(f'dh:core-sample:{name}', f'{name}: DHKey of the Core specification P-256 data set not reproduced: {_show(got)}',
                               {'kind': 'dh', 'd': '0x' + a_hex, 'x': '0x' + pb[0], 'y': '0x' + pb[1], 'expect': dh})
     # ---- invalid peer keys must be rejected by both back ends, for any private key
-    off = gen_offcurve(rng, ctx.n(120, 1500))
+    off = gen_offcurve(rng, ctx.n(90, 1500))
     off_cases = []
     for x, y, lab in off:
         d = rng.choice([1, 2, 5, N - 1, rng.range(1, N - 1), rng.range(1, N - 1)])
@@ -907,11 +907,11 @@ def run_rpa(ctx, mods, batch):
                     ctx.violation(f'rpa:not-resolvable-format:{name}', f'{name}: generated address {hx(bytes(r["addr"]))} is not a resolvable private address', rp)
                 if not r['verify'] or r['idx'] is None:
                     ctx.violation(f'rpa:does-not-resolve:{name}', f'{name}: address {hx(bytes(r["addr"]))} generated from irk={hx(irk)} does not resolve under it', rp)
-                elif r['idx'] != pos:
-                    unrelated_hits += 1      # an earlier key matched: only legitimate as a 24-bit collision
-                unrelated_trials += 1
-                if r['unrelated']:
-                    unrelated_hits += 1
+            # an unrelated key matched (directly, or as an earlier entry of the list): only legitimate
+            # as a 24-bit hash collision.  Counted once per generated address.
+            unrelated_trials += 1
+            if any(r['unrelated'] or (r['idx'] is not None and r['idx'] != pos) for r in per_backend.values()):
+                unrelated_hits += 1
             cases.append((irk, tb, keys, rb))
         # the non-resolvable branch
         for _ in range(20):
@@ -922,13 +922,14 @@ def run_rpa(ctx, mods, batch):
                 ctx.violation('nrpa:type-bits', f'non-resolvable private address {hx(bytes(a))} has type bits {bytes(a)[5] >> 6}', {'kind': 'nrpa'})
     ctx.extra['rpa_unrelated_key_trials'] = unrelated_trials
     ctx.extra['rpa_unrelated_key_resolutions'] = unrelated_hits
-    # "does not resolve under an unrelated key" is a statement about a 24-bit hash: each trial
-    # matches with probability 2^-24 per key.  More than two matches in a run is not chance.
+    # "does not resolve under an unrelated key" is a statement about a 24-bit hash: each generated
+    # address matches one of the 3 unrelated keys with probability 3 * 2^-24.  More than two such
+    # addresses in a run (probability < 1e-12 even in the thorough tier) is not chance.
     if unrelated_hits > 2:
         ctx.violation('rpa:resolves-under-unrelated-key', f'{unrelated_hits} of {unrelated_trials} generated addresses resolved under an unrelated key',
                       {'kind': 'rpa-unrelated', 'hits': unrelated_hits, 'trials': unrelated_trials})
     # model
-    sub = cases[:ctx.n(60, 400)]
+    sub = cases[:ctx.n(30, 400)]
 
     def fin(model):
         for (irk, tb, keys, rb), mv in zip(sub, model):
@@ -945,13 +946,16 @@ def run_rpa(ctx, mods, batch):
 
 # ----------------------------------------------------------------------------- driver entry points
 def _show(o):
-    if o and o[0] == 'ok':
-        v = o[1]
+    def one(v):
         if isinstance(v, (bytes, bytearray)):
             return v.hex()
         if isinstance(v, list) and v and all(isinstance(x, int) for x in v):
-            return bytes(v).hex()
+            return bytes(v).hex() if all(0 <= x < 256 for x in v) else repr(v)
+        if isinstance(v, (list, tuple)):
+            return '(' + ', '.join(one(x) for x in v) + ')'
         return repr(v)
+    if o and o[0] == 'ok':
+        return one(o[1])
     return 'raises'
 
 
@@ -1079,7 +1083,7 @@ def run(ctx):
     mods = backends()
     batch = Batch()
     run_corpus(ctx, mods)
-    run_e(ctx, mods, batch, ctx.n(150, 3000))
+    run_e(ctx, mods, batch, ctx.n(60, 3000))
     run_cmac(ctx, mods, batch)
     run_toolbox(ctx, mods, batch)
     run_rpa(ctx, mods, batch)
